@@ -92,6 +92,7 @@ func checkC08(w *World, r *Report) {
 	r.Explanation += " Rules added in later rounds: (R08.9) relational operators compare numerically first; (R08.10) shape of the precedence descent; (R08.11) string→integer conversions that become literal values use base ten. (R08.12) single-token shortcuts beside TokenizeExpression need an identifier test of the whole text; (R08.13) numeric equality uses no ordering."
 	r.Explanation += " Round 9: (R08.14) expression text and token values are pieces of the source, never rebuilt strings; (R08.15) an operator node is not replaced by its operand without reading the operator."
 	r.Explanation += " Round 10: (R08.12) quoted-literal shortcuts need a no-quote-inside test; (R08.16) filter-chain parsers return their operand wrapped."
+	r.Explanation += " Round 11: (R08.17) text in front of a keyword is consumed; (R08.18) one evaluator interprets BinaryNode operators; short-circuit helpers are summarised."
 	r.RuleText = "obligation = one operator of one table / one evaluation site / one NAME shortcut; non-trivial = agreement and path obligations"
 	r.Trusted = []string{"the specification table is transcribed from the property statement into the checker (specClasses)"}
 
@@ -2103,6 +2104,33 @@ func checkOneEvaluator(w *World, r *Report) {
 		frontier = next
 	}
 	reach := w.renderOnlyReachable()
+	// string parameters that are handed a BinaryNode's operator at some call site
+	opParam := map[*ssa.Parameter]bool{}
+	for _, fn := range w.pkgFuncs() {
+		instrsOf(fn, func(in ssa.Instruction) {
+			c, ok := in.(ssa.CallInstruction)
+			if !ok {
+				return
+			}
+			g := c.Common().StaticCallee()
+			if g == nil || !isTwigFn(g) {
+				return
+			}
+			for i, a := range c.Common().Args {
+				if _, ok := fieldLoad(unspill(a), "BinaryNode", "operator"); ok && i < len(g.Params) {
+					opParam[g.Params[i]] = true
+				}
+			}
+		})
+	}
+	isOperator := func(v ssa.Value) bool {
+		v = unspill(v)
+		if _, ok := fieldLoad(v, "BinaryNode", "operator"); ok {
+			return true
+		}
+		p, ok := v.(*ssa.Parameter)
+		return ok && opParam[p]
+	}
 	n := 0
 	for _, fn := range w.pkgFuncs() {
 		if !reach[fn] {
@@ -2115,7 +2143,7 @@ func checkOneEvaluator(w *World, r *Report) {
 				return
 			}
 			for _, pr := range [][2]ssa.Value{{bo.X, bo.Y}, {bo.Y, bo.X}} {
-				if _, ok := fieldLoad(unspill(pr[0]), "BinaryNode", "operator"); ok {
+				if isOperator(pr[0]) {
 					if _, isConst := pr[1].(*ssa.Const); isConst {
 						site = w.posOf(bo.Pos())
 					}
